@@ -248,7 +248,7 @@ def main():
 
     wall = time.time() - t0
     # ---------------- evidence
-    level = 'proof'
+    level = cfg.get('level', 'proof')
     cov = dict(
         obligations=obligations, discharged=discharged,
         checker_cmd=' ; '.join(c for c in checker_cmds[:3] if c) + (f' ; … ({len(checker_cmds)} commands)' if len(checker_cmds) > 3 else ''),
@@ -265,6 +265,13 @@ def main():
                      'complete (loop-free or closed by a constant of the type); bounded harnesses are listed under "bounded" and '
                      'are not counted'),
     )
+    if level != 'proof':
+        cov['explanation'] = ('bounded stand-in, not proof: every harness of this property is a Kani harness over a bounded environment stand-in '
+                              '(see coverage.bounded for the stated bounds); within the bound the harnesses are exhaustive (symbolic start state = inductive step). '
+                              + cov['explanation'])
+        cov['evaluations'] = sum(b['checks'] for b in bounded)
+        cov['distinct_nontrivial'] = len(bounded)
+        cov['rule'] = 'one case = one CBMC check of a bounded Kani harness; distinct_nontrivial counts harnesses (each covers all symbolic states within the bound)'
     ev = dict(property_id=prop, tier=tier, seed=seed, level=level, coverage=cov,
               assumptions=['extraction rules R1-R9 (DESIGN §2.1) preserve the semantics of the extracted functions',
                            'environment contracts of DESIGN §2.3 (see coverage.trusted_base for the per-run scan)',
